@@ -476,6 +476,9 @@ def _norm_pdu_call(payload):
 
 
 # ------------------------------------------------------------------ BLE
+LINK_LOST = 255          # CharIO!LINK_LOST
+
+
 class _Handle:
     def __init__(self, iid):
         self.iid = iid
@@ -504,6 +507,11 @@ class FakeGatt:
         data = bytes(data)
         _ctl, opcode, tid, iid = struct.unpack("<BBBH", data[:5])
         status = self.owner.on_pdu(opcode, iid)
+        if status == LINK_LOST:
+            # the link drops while this request is in flight: the library finds the client disconnected after
+            # the exchange and raises AccessoryDisconnectedError (not one of the retried bleak errors)
+            status = 0
+            self.is_connected = False
         self.out[handle.iid] = struct.pack("<BBB", 0x02, tid, status)
 
     async def read_gatt_char(self, handle):
@@ -574,7 +582,7 @@ class BleSession:
         detail = {"pdu_statuses": [e["s"] for e in case["entries"]], "returned": repr(result) if exc is None else None,
                   "raised": f"{type(exc).__name__}: {exc}" if exc is not None else None,
                   "listener_calls": [repr(c) for c in self.calls], "pdus_seen": list(self.seen)}
-        healthy = self.client.is_connected and (exc is None or type(exc).__name__ == "PDUStatusError")
+        healthy = exc is None or type(exc).__name__ in ("PDUStatusError", "AccessoryDisconnectedError")
         return rec, detail, healthy
 
     def close(self):
